@@ -6,6 +6,7 @@ judged by `Upnp.C02.ok` (no raise; dropped => inert).  See design/C02.md."""
 from __future__ import annotations
 
 import asyncio
+import logging
 import re
 from datetime import datetime, timedelta
 from types import SimpleNamespace
@@ -14,7 +15,7 @@ from typing import Any, Dict, List, Optional
 from harness.common import FakeSocket, FakeTransport, VirtualTimeLoop, exc_token, tok_bytes
 from vk.core import Case, Ctx
 
-GEN_MODULES: List[str] = ["C01Ssdp", "C02Recv", "C02Sites"]
+GEN_MODULES: List[str] = ["C01Ssdp", "C02Recv", "C02Sites", "C03Tracker"]
 MANIFEST = {
     "design_ref": "§5 C02",
     "text": ("Lean theorems over a model of the whole SSDP receive path in which every raising primitive is explicit "
@@ -33,9 +34,9 @@ MANIFEST = {
              "SsdpProtocol.datagram_received of all four endpoints, with a malformed stream generated per raising primitive "
              "and call site; the Lean judge is evaluated on the implementation's observations."),
     "note": ("Trusted: Lean kernel + standard axioms; the catalogue of raising primitives (which library calls can raise what) "
-             "is validated only by the differential stream; Python int()/regex/str.lower on non-ASCII text, URLs outside the "
-             "modelled grammar and the C04 change-detection logic (whether ssdp:alive of a known device notifies) are outside "
-             "the model; the tracker is modelled as far as the device keys, valid_to and next_valid_to."),
+             "is pinned against the source (sites_covered) and validated by the differential stream; non-ASCII digits/blanks in MX and "
+             "CACHE-CONTROL and URLs outside the modelled grammar are outside the model; the combined listener is the C03/C04 tracker "
+             "model composed with the C01 decoder model (interface assumption proved: decode_guarantee), its callbacks compared exactly."),
     "technique": "Lean 4 proof (totality of an Except-model by case analysis, invariants over datagram sequences) + model/implementation correspondence",
 }
 RULE = ("sequences of 1..20 datagrams to one of five entry points (advertisement listener, search listener, SsdpListener via its "
@@ -52,7 +53,7 @@ ASSUMPTIONS = [
     "ST / USN / NT / NTS / MAN may be any text: str.lower() is modelled by ASCII lower-casing plus U+212A KELVIN SIGN -> k, the only non-ASCII "
     "character whose lower-case form is pure ASCII (enumerated over all code points at the start of every run); device UDNs and types are ASCII",
     "a LOCATION outside the modelled URL grammar from a scoped IPv6 sender is compared only for raise/no-raise; the model then adopts the implementation's tracker state",
-    "whether ssdp:alive of an already known device notifies is C04's concern: the model allows 0 or 1 callback there",
+    "the combined listener is the C03/C04 tracker model run on the C01 decoder's header map; its callback (device, type, source) is compared exactly",
     "datetime.now is a virtual clock (ssdp.datetime patched); the responder's event loop is a stub that records call_at",
 ]
 TRUSTED = ["C02: which exception classes each primitive on the receive path can raise (catalogue in Model/C02Recv.lean) is validated by sampling only"]
@@ -185,7 +186,16 @@ class Env:
         self.adv = SsdpAdvertisementListener(loop=self.loop, **kw(on_alive=1, on_byebye=1, on_update=1))
         self.search = SsdpSearchListener(loop=self.loop, **({"async_callback": acb} if self.async_mode else {"callback": cb}))
         self.search._target_host = target_host
-        self.listener = SsdpListener(loop=self.loop, **({"async_callback": acb} if self.async_mode else {"callback": cb}))
+        self.cbs: List[str] = []
+
+        def lcb(dev, dst, source):
+            env.count += 1
+            env.cbs.append(f"{ts(dev.udn)}|{ts(dst)}|{getattr(source, 'value', source)}")
+
+        async def alcb(dev, dst, source):
+            lcb(dev, dst, source)
+
+        self.listener = SsdpListener(loop=self.loop, **({"async_callback": alcb} if self.async_mode else {"callback": lcb}))
         # what SsdpListener.async_start builds, without the sockets
         self.l_adv = SsdpAdvertisementListener(on_alive=self.listener._on_alive, on_update=self.listener._on_update,
                                                on_byebye=self.listener._on_byebye, loop=self.loop)
@@ -225,7 +235,32 @@ class Env:
             asyncio.set_event_loop(None)
 
 
+class _Swallow(logging.Handler):
+    """formats every record (so that a bad format string / argument shows) and drops it"""
+
+    def emit(self, record):  # noqa: D102
+        record.getMessage()
+
+
 def run_recipe(ctx: Ctx, recipe: Dict[str, Any], cid: str) -> Case:
+    # the DEBUG-only branches of the receive path (`if _LOGGER.isEnabledFor(logging.DEBUG)` and the traffic logger) run in
+    # about half of the cases; the records are formatted and dropped
+    lg = logging.getLogger("async_upnp_client")
+    old_level, old_prop = lg.level, lg.propagate
+    handler = _Swallow()
+    if recipe.get("debug"):
+        lg.setLevel(logging.DEBUG)
+        lg.propagate = False
+        lg.addHandler(handler)
+    try:
+        return _run_recipe(ctx, recipe, cid)
+    finally:
+        lg.removeHandler(handler)
+        lg.setLevel(old_level)
+        lg.propagate = old_prop
+
+
+def _run_recipe(ctx: Ctx, recipe: Dict[str, Any], cid: str) -> Case:
     env = Env(recipe)
     lines = [env.cfg_line(recipe.get("target", ""))]
     tags = set()
@@ -243,6 +278,7 @@ def run_recipe(ctx: Ctx, recipe: Dict[str, Any], cid: str) -> Case:
             tracker = env.listener._device_tracker
             before = sorted(tracker.devices)
             c0, s0, t0 = env.count, len(env.rsock.sent), len(env.stub.timers)
+            del env.cbs[:]
             tsent0 = sum(len(p.transport.sent) for p in env.protos.values())
             raised = "-"
             try:
@@ -261,8 +297,10 @@ def run_recipe(ctx: Ctx, recipe: Dict[str, Any], cid: str) -> Case:
             lines.append(f"dg {ep} {tb(data)} {tok_addr(src)} {tok_addr(local) if local else 'N'} {env.clock}{outside}")
             lines.append(f"eff raised={raised} cb={cbn} sends={sends} timers={timers} devs={devs} "
                          f"next={'N' if nx is None else us(nx)} before={lst(ts(k) for k in before)} "
-                         f"after={lst(ts(k) for k in sorted(tracker.devices))}")
+                         f"after={lst(ts(k) for k in sorted(tracker.devices))} cbs={lst(env.cbs)}")
             tags.add("ep:" + ep)
+            if recipe.get("debug"):
+                tags.add("log:debug")
             if tag:
                 tags.add("fam:" + tag)
             if raised != "-":
@@ -477,6 +515,11 @@ def targeted(rng) -> List[tuple]:
     for cc in ("max-age=\u0661\u0662", "max-age\u00a0=\u20035", "max-age=\uff11" + "\u0669" * 30, "max-age=" + "\u0660" * 4301, "max-age=\u00b9", "MAX-AGE=\u0e51"):
         out.append(("x:unicode-max-age", notify("ssdp:alive", udn, typ, loc, cc), None))
         out.append(("x:unicode-max-age", response(udn, typ, loc, cc), None))
+    # F01a: a metadata name in two spellings next to a valid USN (the decoder's own value must win)
+    for a, b in (("_udn", "_UDN"), ("_UDN", "_udn"), ("_host", "_HOST"), ("_Udn", "_uDN")):
+        hs2 = [[a, "uuid:spoof-1"], [b, "uuid:spoof-2"], ["NT", typ], ["ST", typ], ["NTS", "ssdp:alive"], ["USN", "uuid:dev-1::" + typ], ["LOCATION", loc]]
+        out.append(("spoof-two-spellings", pkt("NOTIFY * HTTP/1.1", hs2), None))
+        out.append(("spoof-two-spellings", pkt("HTTP/1.1 200 OK", [h for h in hs2 if h[0] not in ("NT", "NTS")]), None))
     # metadata spoofing: `_udn` without a USN reaches `_see_device`
     for kind in ("alive", "search", "byebye"):
         hs = [["_udn", "uuid:spoof"], ["LOCATION", loc], ["NT", typ], ["ST", typ], ["NTS", "ssdp:" + ("byebye" if kind == "byebye" else "alive")]]
@@ -495,10 +538,45 @@ HEADER_NAMES = ["HOST", "CACHE-CONTROL", "LOCATION", "NT", "NTS", "SERVER", "USN
 HOSTILE = ["", "abc", "-1", "9" * 25, "9" * 4301, "1.5", "0x10", "1e9", "http://[", "[::", "::", "%", "a:b:c", "\x0b", "1 2", "١٢", "é", "\t7"]
 
 
+_SOURCE_NAMES: Optional[List[str]] = None
+
+
+def source_header_names() -> List[str]:
+    """every header name the library's SSDP modules look up (`get_lower("x")`, `get("x")`, `headers["x"]`), read from the
+    source under test with `ast`: a vendor header parsed by a future change is attacked without anybody listing it"""
+    global _SOURCE_NAMES
+    if _SOURCE_NAMES is None:
+        import ast
+
+        from vk.core import REPO
+
+        names = set()
+        for f in ("ssdp.py", "advertisement.py", "search.py", "ssdp_listener.py", "server.py"):
+            try:
+                mod = ast.parse((REPO / "async_upnp_client" / f).read_text())
+            except (OSError, SyntaxError):
+                continue
+            for n in ast.walk(mod):
+                c = None
+                if isinstance(n, ast.Call) and isinstance(n.func, ast.Attribute) and n.func.attr in ("get_lower", "get", "del_lower", "pop") and n.args:
+                    c = n.args[0]
+                elif isinstance(n, ast.Subscript):
+                    c = n.slice
+                if isinstance(c, ast.Constant) and isinstance(c.value, str) and c.value and not c.value.startswith("_") \
+                        and all(ch in TOKEN_CHARS for ch in c.value):
+                    names.add(c.value.upper())
+        _SOURCE_NAMES = sorted(names)
+    return _SOURCE_NAMES
+
+
+TOKEN_CHARS = "!#$%&'*+-.^_`|~0123456789abcdefghijklmnopqrstuvwxyzABCDEFGHIJKLMNOPQRSTUVWXYZ"
+
+
 def hostile(rng) -> bytes:
     """a valid message in which ONE known header (present or added) carries a hostile value: any int()/float()/URL
     parsing a future change applies to a header value on the receive path meets text it cannot parse"""
-    name, val = rng.choice(HEADER_NAMES), rng.choice(HOSTILE)
+    pool = HEADER_NAMES + [n for n in source_header_names() if n not in HEADER_NAMES]
+    name, val = (rng.choice(pool) if rng.random() < 0.85 else "X-" + "".join(rng.choice("ABCDEFGHIJ-") for _ in range(6))), rng.choice(HOSTILE)
     udn, typ, loc = rng.choice(UDNS), rng.choice(TYPES), rng.choice(LOCS)
     c = rng.randrange(4)
     if c == 0:
@@ -529,6 +607,11 @@ def seq_prefix(rng, n: int) -> List[list]:
 
 
 CORPUS = [
+    # composition with the C03 tracker model: `urlparse` raises (suppressed) on an unbalanced bracket, so the new location has
+    # no ip version and is NOT a change — the C03 model read `[fe80::1` as IPv6 (corrected by `C02.ipv`)
+    {"ops": [["lsearch", response("uuid:dev-1", "upnp:rootdevice", "http://[fe80::1]:8000/desc.xml", "no-cache").hex(), ["192.168.1.7", 1900], None, 1000],
+             ["ladv", notify("ssdp:alive", "uuid:dev-1", "upnp:rootdevice", "http://[fe80::1/", None).hex(), ["192.168.1.7", 1900], None, 4000000],
+             ["ladv", notify("ssdp:alive", "uuid:dev-1", "upnp:rootdevice", "http://fe80::1]/", None).hex(), ["192.168.1.7", 1900], None, 1000]]},
     # §7 probes, each through the endpoint that raised
     {"ops": [["ladv", notify("ssdp:alive", "uuid:dev-1", "upnp:rootdevice", "http://192.168.1.7/d", None, extra=[["X", "v" * 8191]]).hex(), ["192.168.1.7", 1900], None, 1000]]},  # F02a
     {"ops": [["adv", (b"NOTIFY * HTTP/1.1 \xff\r\nNT:x\r\nNTS:ssdp:alive\r\n\r\n").hex(), ["192.168.1.7", 1900], None, 1000]]},  # F02b
@@ -555,7 +638,7 @@ def gen_part(ctx: Ctx, kind: str, n: int, prefix: str) -> List[Case]:
     cases: List[Case] = []
 
     def add(ops, target="", cbm=None):
-        rec = {"ops": ops, "target": target, "cb": cbm or rng.choice(["sync", "async"])}
+        rec = {"ops": ops, "target": target, "cb": cbm or rng.choice(["sync", "async"]), "debug": rng.random() < 0.5}
         cases.append(run_recipe(ctx, rec, f"{prefix}{len(cases)}"))
 
     if kind == "targeted":
@@ -668,7 +751,7 @@ def generate(ctx: Ctx) -> List[Case]:
     import multiprocessing as mp
 
     jobs = []
-    for kind, n, chunks in (("targeted", 1, 8), ("sandwich", 1200, 8), ("hostile", 1500, 8), ("valid", 1800, 16), ("mutated", 1600, 24)):
+    for kind, n, chunks in (("targeted", 1, 8), ("sandwich", 900, 8), ("hostile", 1100, 8), ("valid", 1300, 16), ("mutated", 1200, 24)):
         for c in range(chunks):
             jobs.append(("thorough", ctx.rng.randrange(1 << 30), kind, n, f"{kind[0]}{c}-"))
     with mp.Pool(min(16, mp.cpu_count())) as pool:
